@@ -294,8 +294,32 @@ where
 pub struct ReadableSystemTime(pub SystemTime);
 impl Display for ReadableSystemTime {
     fn fmt(&self, f: &mut std::fmt::Formatter<'_>) -> std::fmt::Result {
-        let format = DateTime::<Utc>::from(self.0).format("%Y-%m-%d %H:%M:%S%.3f %Z (%s%.9f)");
-        Display::fmt(&format, f)
+        // `DateTime::<Utc>::from(SystemTime)` panics for times outside of chrono's representable
+        // range (e.g. an extreme value read back from storage), so convert fallibly instead.
+        let since_epoch = match self.0.duration_since(SystemTime::UNIX_EPOCH) {
+            Ok(duration) => i64::try_from(duration.as_secs())
+                .ok()
+                .map(|secs| (secs, duration.subsec_nanos())),
+            Err(e) => {
+                let duration = e.duration();
+                i64::try_from(duration.as_secs()).ok().and_then(|secs| {
+                    if duration.subsec_nanos() == 0 {
+                        secs.checked_neg().map(|secs| (secs, 0))
+                    } else {
+                        secs.checked_neg()
+                            .and_then(|secs| secs.checked_sub(1))
+                            .map(|secs| (secs, 1_000_000_000 - duration.subsec_nanos()))
+                    }
+                })
+            }
+        };
+        match since_epoch.and_then(|(secs, nanos)| DateTime::<Utc>::from_timestamp(secs, nanos)) {
+            Some(date_time) => {
+                let format = date_time.format("%Y-%m-%d %H:%M:%S%.3f %Z (%s%.9f)");
+                Display::fmt(&format, f)
+            }
+            None => write!(f, "{:?} (outside of the printable date range)", self.0),
+        }
     }
 }
 impl Debug for ReadableSystemTime {
